@@ -1132,3 +1132,42 @@ fn c25_from_module_bad_labels() {
     core::mem::forget(r);
     core::mem::forget(m);
 }
+
+// ---- temporary experiments (to be removed) ----
+fn xp(symctx: bool, symdepth: bool, kinds: &'static [K], shape: u8) {
+    let m = machine1(Instruction::Def(ident!("a")), NO_TABLES);
+    let mut io = Io::new(0, 0, 0);
+    let ctx = if symctx { any_ctx() } else { CommandContext::Open(OpenContext { name: ident!("a") }) };
+    let mut rs = RunState::new(&m, &mut io, ctx);
+    let push = if symdepth { kani::any() } else { true };
+    if push {
+        if let Err(v) = rs.stack.0.push(any_value(kinds)) {
+            core::mem::forget(v);
+        }
+    }
+    shape_scope(&mut rs, shape);
+    let r = rs.step();
+    core::mem::forget(r);
+    core::mem::forget(rs);
+    core::mem::forget(m);
+}
+#[kani::proof]
+#[kani::stub(alloc::fmt::format, fmt_stub)]
+#[kani::unwind(2)]
+fn xp_v1() { xp(false, false, &[K::Int], 0); }
+#[kani::proof]
+#[kani::stub(alloc::fmt::format, fmt_stub)]
+#[kani::unwind(2)]
+fn xp_v2() { xp(true, false, &[K::Int], 0); }
+#[kani::proof]
+#[kani::stub(alloc::fmt::format, fmt_stub)]
+#[kani::unwind(2)]
+fn xp_v3() { xp(false, true, &[K::Int], 0); }
+#[kani::proof]
+#[kani::stub(alloc::fmt::format, fmt_stub)]
+#[kani::unwind(2)]
+fn xp_v4() { xp(false, false, SCALARS, 0); }
+#[kani::proof]
+#[kani::stub(alloc::fmt::format, fmt_stub)]
+#[kani::unwind(2)]
+fn xp_v5() { xp(false, false, &[K::Int], 3); }
